@@ -12,6 +12,7 @@ import (
 	"fmt"
 	"io"
 	"net/http"
+	"strings"
 	"sync/atomic"
 	"time"
 
@@ -155,6 +156,9 @@ func httpSlice(leader *livesrv.Node, m *model, regions []RegionSpec, when string
 		return !flaky, err
 	}
 	for gi, g := range queryGroups {
+		if strings.Contains(g, "/") || g == "." || g == ".." {
+			continue // cannot be written into a path
+		}
 		if err := expectRules("/config/rules/group/"+g, want.ByGroup[gi]); err != nil || flaky {
 			return !flaky, err
 		}
@@ -262,6 +266,9 @@ func httpSlice(leader *livesrv.Node, m *model, regions []RegionSpec, when string
 		}
 		for off := -1; off <= 1; off++ {
 			k := shiftKey(b, off)
+			if k == "" {
+				continue // the empty key cannot be written into the path
+			}
 			if err := expectRules("/config/rules/key/"+hex.EncodeToString([]byte(k)), msigs(m.rulesAt(k))); err != nil || flaky {
 				return !flaky, err
 			}
